@@ -301,6 +301,36 @@ pub fn run(ctx: &Ctx) {
         for (kind, key, _) in keys.wrappable.iter().filter(|k| k.1.len() <= 64).take(if thorough { 4 } else { 2 }) {
             run_pw(b, &mut m, &mut rep, kind, b"correct horse battery staple", None, key, g.next(), None);
         }
+        // thorough: "any other valid cost parameters" — round-number boundaries of the cost fields up to the budget
+        if thorough {
+            let (kind, key, _) = &keys.wrappable[0];
+            let mut sets: Vec<Vec<u8>> = vec![];
+            if b.pw_param_len == 4 {
+                for base in [10u32, 100, 1000, 10_000, 100_000, 1_000_000, 1 << 10, 1 << 16, 1 << 20] {
+                    for d in [-1i64, 0, 1] {
+                        sets.push(((base as i64 + d) as u32).to_be_bytes().to_vec());
+                    }
+                }
+            } else {
+                for mem_kib in [8u64, 9, 16, 1023, 1024, 1025, 65_536] {
+                    for (time, para) in [(1u32, 1u32), (2, 1), (3, 1), (1, 2), (1, 4)] {
+                        if b.name == "v4-sodium" && para != 1 {
+                            continue;
+                        }
+                        if mem_kib < 8 * para as u64 {
+                            continue;
+                        }
+                        let mut v = (mem_kib * 1024).to_be_bytes().to_vec();
+                        v.extend_from_slice(&time.to_be_bytes());
+                        v.extend_from_slice(&para.to_be_bytes());
+                        sets.push(v);
+                    }
+                }
+            }
+            for p in sets {
+                run_pw(b, &mut m, &mut rep, kind, b"pw", Some(&p), key, g.next(), None);
+            }
+        }
         // PKE
         for (ri, (sk, pk, _src)) in keys.recipients.iter().enumerate() {
             let n = if b.ver == "v1" { 2 } else { if thorough { 20 } else { 5 } };
